@@ -397,7 +397,7 @@ func (loader *Loader) resolveComponent(doc *T, ref string, path *url.URL, resolv
 
 			// Special case due to multijson
 			case *SchemaRef:
-				if pathPart == "additionalProperties" {
+				if pathPart == "additionalProperties" && c != nil && c.Value != nil {
 					if ap := c.Value.AdditionalProperties.Has; ap != nil {
 						cursor = *ap
 					} else {
@@ -422,6 +422,9 @@ func (loader *Loader) resolveComponent(doc *T, ref string, path *url.URL, resolv
 			}
 
 			if cursor == nil {
+				return nil, failedToResolveRefFragmentPart(ref, pathPart)
+			}
+			if v := reflect.ValueOf(cursor); v.Kind() == reflect.Ptr && v.IsNil() {
 				return nil, failedToResolveRefFragmentPart(ref, pathPart)
 			}
 		}
